@@ -262,3 +262,53 @@ def add_altloc(lines, rid, delta=(300, -200, 250), backbone=("N", "CA", "C", "O"
         else:
             out.append(ln)
     return out
+
+
+def align_to_axis(lines, p, q, axis):
+    """Rigidly rotate the structure about p so that the vector p -> q points along coordinate axis `axis` (0, 1, 2).
+    Coordinates are re-rounded to the PDB grid (0.001 A)."""
+    import math
+    v = [q[i] - p[i] for i in range(3)]
+    n = math.sqrt(sum(x * x for x in v))
+    u = [x / n for x in v]
+    t = [1.0 if i == axis else 0.0 for i in range(3)]
+    c = sum(a * b for a, b in zip(u, t))
+    k = [u[1] * t[2] - u[2] * t[1], u[2] * t[0] - u[0] * t[2], u[0] * t[1] - u[1] * t[0]]
+    s = math.sqrt(sum(x * x for x in k))
+    if s < 1e-12:
+        return list(lines)
+    k = [x / s for x in k]
+    out = []
+    for ln in lines:
+        if not is_atom(ln):
+            out.append(ln)
+            continue
+        r = pdbio.parse_line(ln)
+        w = [r.x - p[0], r.y - p[1], r.z - p[2]]
+        kw = sum(a * b for a, b in zip(k, w))
+        kxw = [k[1] * w[2] - k[2] * w[1], k[2] * w[0] - k[0] * w[2], k[0] * w[1] - k[1] * w[0]]
+        rot = [w[i] * c + kxw[i] * s + k[i] * kw * (1 - c) for i in range(3)]
+        out.append(pdbio.set_xyz(ln, int(round(p[0] + rot[0])), int(round(p[1] + rot[1])), int(round(p[2] + rot[2]))))
+    return out
+
+
+def disulfide_pair():
+    """The two cysteines of the 3SGB bridge E42-E58 as a two-chain structure, with the SG positions."""
+    a = [ln for ln in chain_lines("3SGB", "E", 13, 1)]
+    b = rename_chain([ln for ln in chain_lines("3SGB", "E", 33, 1)], "E", "F")
+    lines = a + [TER] + b + [TER]
+    sg = [pdbio.parse_line(ln) for ln in lines if is_atom(ln) and ln[12:16].strip() == "SG"]
+    return lines, (sg[0].x, sg[0].y, sg[0].z), (sg[1].x, sg[1].y, sg[1].z)
+
+
+def disulfide_slides(axis, step=10, span=2600, start=0):
+    """The bridge turned parallel to a coordinate axis and pushed along it in `step` (milli-A) increments: every
+    placement of the two sulfurs relative to any internal grid along that axis."""
+    lines, p, q = disulfide_pair()
+    al = align_to_axis(lines, p, q, axis)
+    out = []
+    for off in range(start, start + span, step):
+        d = [0, 0, 0]
+        d[axis] = off
+        out.append((off, translate(al, *d)))
+    return out
